@@ -145,7 +145,7 @@ func (env *renterEnv) holds(cands []guardCand, targets []*cfgx.Node) (bool, toke
 			for _, e := range fail {
 				st = append(st, cfgx.StartAfter(e, 0))
 			}
-			vs := f.Graph().Explore(st, cfgx.Walker{OnEdge: func(e *cfgx.Edge, s cfgx.State) (cfgx.State, bool) { return s, !cut[e] }})
+			vs := f.ExploreFeasible(st, cfgx.Walker{OnEdge: func(e *cfgx.Edge, s cfgx.State) (cfgx.State, bool) { return s, !cut[e] }})
 			for _, v := range vs {
 				for _, t := range targets {
 					if v.Node == t {
